@@ -478,6 +478,23 @@ def main(repo, out):
         if k not in fconst:
             unrec.append("LevelFilter::%s missing" % k)
 
+    # 4b. the conversions between Level, Option<Level> and LevelFilter: each must be the identity on the Option<Level> inside
+    convs = []
+    shapes = [
+        ("from_level", r"pub const fn from_level\(level: Level\) -> Self \{\s*Self\(Some\(level\)\)\s*\}"),
+        ("into_level", r"pub const fn into_level\(self\) -> Option<Level> \{\s*self\.0\s*\}"),
+        ("From<Level> for LevelFilter", r"impl From<Level> for LevelFilter \{\s*(?:#\[inline\]\s*)?fn from\(level: Level\) -> Self \{\s*Self::from_level\(level\)\s*\}\s*\}"),
+        ("From<Option<Level>> for LevelFilter", r"impl From<Option<Level>> for LevelFilter \{\s*(?:#\[inline\]\s*)?fn from\(level: Option<Level>\) -> Self \{\s*Self\(level\)\s*\}\s*\}"),
+        ("From<LevelFilter> for Option<Level>", r"impl From<LevelFilter> for Option<Level> \{\s*(?:#\[inline\]\s*)?fn from\(filter: LevelFilter\) -> Self \{\s*filter\.into_level\(\)\s*\}\s*\}"),
+    ]
+    for nm, pat in shapes:
+        ok = len(re.findall(pat, md)) == 1
+        convs.append("(%s, %s)" % (coq_str(nm), "true" if ok else "false"))
+        if not ok:
+            unrec.append("conversion %s: body" % nm)
+    G.append("(* conversions Level <-> Option<Level> <-> LevelFilter whose body is the identity on the wrapped Option<Level> *)")
+    G.append("Definition gen_conv_identity : list (string * bool) :=\n  [" + "; ".join(convs) + "].")
+
     # 5. filter_as_usize
     fa = None
     for mt, body, _, _ in find_blocks(md, r"fn filter_as_usize\(x: &Option<Level>\) -> usize\s*\{"):
@@ -543,6 +560,11 @@ def main(repo, out):
     if not sm:
         unrec.append("set_max body")
     G.append("Definition gen_set_max (f : option lv) : N :=\n  match f with Some l => gen_disc l | None => gen_usize_const None end.")
+    mi = re.search(r"static MAX_LEVEL: AtomicUsize = AtomicUsize::new\(LevelFilter::([A-Z]+)_USIZE\);", md)
+    if not mi or mi.group(1) not in usize:
+        unrec.append("MAX_LEVEL initialiser")
+    G.append("(* static MAX_LEVEL: AtomicUsize = AtomicUsize::new(..) *)")
+    G.append("Definition gen_max_initial : N := %s." % (usize[mi.group(1)] if mi and mi.group(1) in usize else "255"))
 
     # 8. FromStr
     def fromstr(ty, filt):
